@@ -25,12 +25,13 @@ META = {
 THEOREMS = [("export_reproducible", "theorem"), ("type_locs_reproducible", "theorem"), ("export_complete_once", "theorem"),
             ("modules_reproducible_iff_sorted", "theorem"), ("modules_reproducible_iff_key_has_path", "theorem"),
             ("modules_complete_iff_not_skipped", "theorem"),
-            ("globals_once_iff_dedup", "theorem"), ("split_class_content_reproducible", "theorem"),
+            ("globals_once_iff_dedup", "theorem"), ("globals_once_iff_sort_refines_dedup", "theorem"), ("split_class_content_reproducible", "theorem"),
             ("split_class_reproducible_iff_sorted", "theorem"), ("export_example", "example")]
 
 EXPECTED_FLAGS = {"modules_sorted": True, "types_sorted": True, "globals_sorted": True, "globals_dedup": True,
                   "modules_skip_no_export": False, "type_locs_sorted": True, "update_files_sorted": True,
                   "modules_key_has_path": True, "types_key_has_locs": True, "globals_key_has_decl_id": True,
+                  "modules_key_reviewed": True, "types_key_reviewed": True, "globals_key_exact_name": True, "type_locs_key_reviewed": True,
                   "main_filter_export_modules": True, "main_filter_export_types": True, "main_filter_export_globals": True}
 
 TRUSTED = [
